@@ -184,7 +184,6 @@ check("C07", "proof",
       "uint64 boundaries, floats) and the encode->evaluate round trip are bounded stand-ins against a reference decoder "
       "written from the statement (bodies up to length 3-4 over a 16-symbol adversarial alphabet x 8 quoting styles x 2 runners).",
       "regular-language obligations (z3 regex) + exhaustive finite escape table + bounded-exhaustive decoding differential", "DESIGN.md 4/C07")
-_pending = "contracts for this property are not built yet in this revision (work in progress, see DESIGN.md section 8 build order)"
 check("C06", "proof",
       "Grammar half, decided on the real cel.lark as compiled by lark on every run: the strict LALR(1) analysis reports no "
       "conflict; with helper non-terminals inlined the production set equals, production by production, a canonical "
@@ -214,5 +213,19 @@ check("C04", "proof",
       "CEL's minimum nesting in fresh interpreters with default / lowered / raised recursion limits are bounded stand-ins. "
       "One recorded finding: malformed macro argument lists.",
       "modular raise-envelope contracts (symbolic execution of the real rule methods against abstract callee envelopes) + bounded envelope/grid checks of the callees", "DESIGN.md 4/C04")
-for _p in ["C03"]:
-    NA[_p] = _pending
+check("C03", "proof",
+      "Per-construct simulation contracts between the two runners: for every operator / call / literal / selection construct the real "
+      "Evaluator rule method (on a mock node) and the text the real Phase1/Phase2 transpiler emits for the same node are executed "
+      "symbolically in one path, over all pairings of child outcomes (same value of 13 kinds / interpreter error value vs. compiled "
+      "raise of each convertible class incl. a subclass / error value on both sides), with the operator implementations abstract, "
+      "shared and deterministic. Obligations: S1 the emitted expression only raises classes result() converts, S2 error on one side "
+      "iff error on the other, S3 equal value. Depth-2 compositions outer(inner(x)) of 19 constructs (quick: pairs with a unary "
+      "operator or parenthesis; thorough: all 361) catch templates that look into their child. result() has its own contract "
+      "(value passes; every convertible class, subclass, arg-less exception becomes an error value); 31 table obligations tie the "
+      "emitted callee to base_functions[name].",
+      "the whole-program differential (2342 conformance expressions with bindings and containers, every construct over atoms of "
+      "every kind, sampled depth-3 programs) is a bounded stand-in; macros rely on C08/C09 (both runners against one spec); the "
+      "operator envelopes on C04 layer 2 (bounded). Five recorded findings delimit regions where the runners genuinely differ "
+      "(has() yields a Python bool; object construction; malformed macro calls; dotted binding vs macro variable; error VALUES "
+      "kept as list/map elements or call arguments by compiled code).",
+      "per-construct simulation contracts (symbolic co-execution of the real interpreter rule and the real emitted code against shared abstract callees) + result() contract + bounded whole-program differential", "DESIGN.md 4/C03")
